@@ -51,7 +51,7 @@ var MutationKinds = []string{
 	"empty-object", "empty-interface", "empty-enum", "empty-input",
 	// R7 directive uses
 	"dir-wrong-location-type", "dir-wrong-location-enumvalue", "dir-wrong-location-field", "dir-wrong-location-arg", "dir-wrong-location-inputfield",
-	"dir-unknown-arg-type", "dir-unknown-arg-field", "dir-uncoercible-arg-type", "dir-uncoercible-arg-field", "dir-uncoercible-arg-enumvalue",
+	"dir-unknown-arg-type", "dir-unknown-arg-field", "dir-uncoercible-arg-type", "dir-uncoercible-arg-field", "dir-uncoercible-arg-enumvalue", "dir-uncoercible-arg-null",
 	// R8 directive definition cycles
 	"dir-cycle-self", "dir-cycle-two", "dir-cycle-lasso", "ref-directive-named-like-type", "schema-ext-dir-no-roots", "iface-shared-field-second-unsatisfied",
 }
@@ -590,6 +590,23 @@ func Mutate(t *rapid.T, base *hx.Schema, kind string) (s *hx.Schema, m Mutation,
 		du := hx.DirUse{Name: "mut", Args: []hx.KV{{Key: "zzz", V: hx.I64(1)}}}
 		if kind == "dir-uncoercible-arg-type" {
 			du.Args = []hx.KV{{Key: "p", V: hx.Str("not a number")}}
+		}
+		td.Dirs = append(td.Dirs, du)
+		m.Names, m.Position = []string{"mut", td.Name}, "type:"+td.Kind
+	case "dir-uncoercible-arg-null":
+		// null written for an argument declared non-null (alone, after or before a valid argument)
+		ty := []string{"Int", "ID", "String", "Boolean", "Float"}[pick(5, "argType")]
+		s.Dirs = append(s.Dirs, &hx.DirDef{Name: "mut", On: []string{"OBJECT", "INTERFACE", "UNION", "ENUM", "INPUT_OBJECT", "SCALAR"},
+			Args: []*hx.Arg{{Name: "p", Type: hx.Named("Int")}, {Name: "q", Type: hx.Named(ty).NN()}}})
+		td := s.Types[pick(len(s.Types), "site")]
+		du := hx.DirUse{Name: "mut"}
+		switch pick(3, "shape") {
+		case 0:
+			du.Args = []hx.KV{{Key: "q", V: hx.Nil()}}
+		case 1:
+			du.Args = []hx.KV{{Key: "p", V: hx.I64(1)}, {Key: "q", V: hx.Nil()}}
+		case 2:
+			du.Args = []hx.KV{{Key: "q", V: hx.Nil()}, {Key: "p", V: hx.Nil()}}
 		}
 		td.Dirs = append(td.Dirs, du)
 		m.Names, m.Position = []string{"mut", td.Name}, "type:"+td.Kind
